@@ -5,6 +5,7 @@ mod c02;
 mod c05;
 mod c08;
 mod c10;
+mod c11;
 mod sim;
 
 fn main() {
@@ -15,6 +16,7 @@ fn main() {
         "C05" => c05::run(cfg),
         "C08" => c08::run(cfg),
         "C10" => c10::run(cfg),
+        "C11" => c11::run(cfg),
         other => {
             eprintln!("vh-store: unknown property {other}");
             std::process::exit(2);
